@@ -6,7 +6,7 @@ args = sys.argv[1:] or []
 fd, xml = tempfile.mkstemp(suffix=".xml", dir="/dev/shm" if os.path.isdir("/dev/shm") else None); os.close(fd)
 cmd = ["/venv/bin/python", "-m", "pytest", "-q", "-p", "no:cacheprovider", "--timeout=900", "--continue-on-collection-errors",
        f"--junitxml={xml}"] + args
-subprocess.run(cmd, cwd="/repo", stdout=subprocess.DEVNULL, stderr=subprocess.DEVNULL)
+subprocess.run(cmd, cwd=os.environ.get("SUITE_CWD", "/repo"), stdout=subprocess.DEVNULL, stderr=subprocess.DEVNULL)
 base = set(json.load(open("/root/.vp/BASELINE.json"))["stable_pass"])
 passed, failed = set(), set()
 for tc in ET.parse(xml).getroot().iter("testcase"):
